@@ -12,7 +12,7 @@ PID = "C11"
 LEVEL = "exploration"
 ANCHORS = ["onl/netdev/token_bucket.py", "onl/netdev/two_level_token_bucket.py"]
 RULE = ("random arrival workloads (same-instant bursts, idle periods longer than the fill time, packets larger than the "
-        "bucket) x rates / bucket sizes / peak on-off for TokenBucket and CIR/CBS/PIR/PBS on-off for TwoRateTokenBucket; "
+        "bucket, packets with bytes payloads of other lengths than their size, packets handed in before the next hop is connected) x rates / bucket sizes / peak on-off for TokenBucket and CIR/CBS/PIR/PBS on-off for TwoRateTokenBucket; "
         "exact flavour uses dyadic quantities (8/rate a power of two) so every mathematically equivalent implementation "
         "gives bit-identical instants; non-trivial = some packet had to wait for tokens AND some packet found the bucket "
         "capped after an idle period; distinct by case hash")
